@@ -577,6 +577,7 @@ theorem C16_reachable (s : Sys) (l : List Step)
         | donate a d n => exact of_sc _ (env_same x _ (by intro u b a h; cases h))
         | blockRedelegation v on => exact of_sc _ (env_same x _ (by intro u b a h; cases h))
         | blockUndelegation v on => exact of_sc _ (env_same x _ (by intro u b a h; cases h))
+        | setInactive v on => exact of_sc _ (env_same x _ (by intro u b a h; cases h))
         | oracle ok p => exact of_sc _ (env_same x _ (by intro u b a h; cases h))
         | swap ok p => exact of_sc _ (env_same x _ (by intro u b a h; cases h))
       | tx m =>
